@@ -3,6 +3,7 @@ from inspect import BoundArguments
 from inspect import Parameter
 from inspect import Signature
 from inspect import iscoroutinefunction
+from inspect import unwrap
 from itertools import chain
 from types import MethodType
 from typing import Any
@@ -11,16 +12,22 @@ from typing import Any
 def _make_key(method):
     method = method.func if isinstance(method, partial) else method
     method = method.fget if isinstance(method, property) else method
+    # Callables produced by the same decorator share the wrapper's code object: what they wrap
+    # (``functools.wraps``) or the signature they declare (``__signature__``) is part of the key.
+    wrapped = getattr(unwrap(method), "__code__", None)
+    declared = str(getattr(method, "__signature__", ""))
     if isinstance(method, MethodType):
         return hash(
             (
                 method.__qualname__,
                 method.__self__.__class__.__name__,
                 method.__code__,
+                wrapped,
+                declared,
             )
         )
     else:
-        return hash((method.__qualname__, method.__code__))
+        return hash((method.__qualname__, method.__code__, wrapped, declared))
 
 
 def signature_cache(user_function):
